@@ -1,6 +1,7 @@
 package h
 
 import (
+	"strings"
 	"syscall"
 	"runtime"
 	"bufio"
@@ -52,6 +53,18 @@ func TestWorker(t *testing.T) {
 		bw.Flush()
 	}()
 	enc := json.NewEncoder(bw)
+	emergency = func(v Violation) {
+		rc := curRC
+		res := Result{Idx: curIdx, Viols: append(rc.Viols, v), Stats: rc.Stats, Shapes: rc.Shapes, Hash: rc.hash, Sample: rc.Sample, Nontriv: true, Key: rc.Key, Tape: rc.T.Out, Trace: strings.Join(rc.Trace, "\n")}
+		if res.Stats == nil {
+			res.Stats = map[string]int{}
+		}
+		_ = enc.Encode(res)
+		bw.WriteString("{\"done\":true}\n")
+		bw.Flush()
+		f.Close()
+		os.Exit(0)
+	}
 	if spec.Tapes != nil {
 		for i, tp := range spec.Tapes {
 			res := runOne(&spec, i, ReplayTape(tp))
